@@ -9,6 +9,7 @@ import (
 	"fmt"
 	"os"
 	"strconv"
+	"strings"
 )
 
 type qfact struct {
@@ -24,27 +25,50 @@ const maxPerFact = 48
 // arrKey identifies the backing object of an element array term: the reference at which the element heap is read
 // (the same for all heap versions), or the term itself for arrays that are not heap objects (strings).
 func arrKey(arr *Term) string {
-	t := arr
-	for i := 0; i < 64; i++ {
+	ks := arrKeys(arr)
+	return ks[0]
+}
+
+// arrKeys: all backing objects an element array term may denote (the branches of conditionals are followed;
+// a store is an update of the same object).
+func arrKeys(arr *Term) []string {
+	var out []string
+	seen := map[string]bool{}
+	add := func(k string) {
+		if !seen[k] && len(out) < 6 {
+			seen[k] = true
+			out = append(out, k)
+		}
+	}
+	var walk func(t *Term, depth int)
+	walk = func(t *Term, depth int) {
+		if depth > 64 {
+			return
+		}
 		switch t.op {
 		case "select":
 			if t.args[0].sort.isArray() {
 				_, v := t.args[0].sort.arrayParts()
 				if v.isArray() {
-					return "ref:" + strconv.Itoa(t.args[1].id)
+					add("ref:" + strconv.Itoa(t.args[1].id))
+					return
 				}
 			}
-			return "arr:" + strconv.Itoa(t.id)
+			add("arr:" + strconv.Itoa(t.id))
 		case "ite":
-			t = t.args[1]
-			continue
+			walk(t.args[1], depth+1)
+			walk(t.args[2], depth+1)
 		case "store":
-			t = t.args[0]
-			continue
+			walk(t.args[0], depth+1)
+		default:
+			add("arr:" + strconv.Itoa(t.id))
 		}
-		break
 	}
-	return "arr:" + strconv.Itoa(t.id)
+	walk(arr, 0)
+	if len(out) == 0 {
+		out = append(out, "arr:"+strconv.Itoa(arr.id))
+	}
+	return out
 }
 
 // indexSorts finds the element sorts of the arrays that are indexed by an expression containing bv.
@@ -65,6 +89,22 @@ func indexSorts(body, bv *Term) map[string]bool {
 		memo[t.id] = r
 		return r
 	}
+	// the bound variable is the index itself (possibly shifted or scaled), not buried inside another read
+	var direct func(t *Term) bool
+	direct = func(t *Term) bool {
+		if t == bv {
+			return true
+		}
+		if t.op == "+" || t.op == "-" || t.op == "*" {
+			for _, a := range t.args {
+				if direct(a) {
+					return true
+				}
+			}
+		}
+		return false
+	}
+	mentions = direct
 	seen := map[int]bool{}
 	var walk func(t *Term)
 	walk = func(t *Term) {
@@ -73,10 +113,17 @@ func indexSorts(body, bv *Term) map[string]bool {
 		}
 		seen[t.id] = true
 		if len(t.op) > 3 && t.op[:3] == "at." && len(t.args) == 3 && mentions(t.args[2]) {
-			out[arrKey(t.args[0])] = true
+			for _, k := range arrKeys(t.args[0]) {
+				out[k] = true
+			}
+			out["sort:"+t.op[3:]] = true
 		}
 		if t.op == "select" && mentions(t.args[1]) && t.args[0].sort.isArray() {
-			out[arrKey(t.args[0])] = true
+			for _, k := range arrKeys(t.args[0]) {
+				out[k] = true
+			}
+			_, v := t.args[0].sort.arrayParts()
+			out["sort:"+v.Name] = true
 		}
 		for _, a := range t.args {
 			walk(a)
@@ -136,6 +183,9 @@ func (x *Exec) registerFacts(st *State, t *Term, guard *Term, depth int) {
 		x.qseen[key] = true
 		f := &qfact{bv: bv, body: body, guard: guard, sorts: indexSorts(body, bv)}
 		x.qfacts = append(x.qfacts, f)
+		if os.Getenv("GOVC_DEBUG") != "" {
+			fmt.Fprintf(os.Stderr, "DEBUG register fact#%d sorts=%v body=%s\n", body.id, f.sorts, truncate(body.String(), 300))
+		}
 		for _, e := range x.interest {
 			x.instantiate(st, f, e, depth)
 		}
@@ -157,7 +207,9 @@ func (x *Exec) registerFacts(st *State, t *Term, guard *Term, depth int) {
 		x.linkAtTerms(inst)
 		// the witness is relevant to the arrays the existential talks about
 		for s := range indexSorts(t.args[1], t.args[0]) {
-			x.addInterest(st, k, s)
+			if !strings.HasPrefix(s, "sort:") && os.Getenv("GOVC_NOWITNESS") == "" {
+				x.addInterest(st, k, s)
+			}
 		}
 	}
 }
@@ -191,8 +243,62 @@ func (x *Exec) instantiate(st *State, f *qfact, e *Term, depth int) {
 	inst := substTerm(f.body, map[int]*Term{f.bv.id: e})
 	x.ctx.facts = append(x.ctx.facts, Implies(f.guard, inst))
 	x.linkAtTerms(inst)
+	x.typeReadsIn(st, inst)
 	x.unfoldSumsIn(st, inst)
 	x.registerFacts(st, inst, f.guard, depth+1)
+}
+
+// typeReadsIn adds the typing facts (value ranges, and: every reference is below the allocation counter of the
+// program point that produced the heap version) of the ground heap reads inside an instance of a quantified fact.
+// Reads evaluated by the executor get these facts when they are made; reads under a quantifier only become ground here.
+func (x *Exec) typeReadsIn(st *State, t *Term) {
+	seen := map[int]bool{}
+	add := func(v *Term, sym *Term) {
+		info, ok := heapSymInfo[sym.id]
+		if !ok || hasFreeBound(v) {
+			return
+		}
+		typ, ok := heapValType[info.name]
+		if !ok {
+			return
+		}
+		at := info.at
+		if at == nil {
+			at = x.job.alloc0
+		}
+		key := [2]int{v.id, at.id}
+		if x.typed[key] {
+			return
+		}
+		x.typed[key] = true
+		if f := x.typeFact(&State{alloc: at}, v, typ, 0); f != True {
+			x.ctx.facts = append(x.ctx.facts, f)
+		}
+	}
+	var walk func(t *Term)
+	walk = func(t *Term) {
+		if seen[t.id] || t.op == "forall" || t.op == "exists" {
+			return
+		}
+		seen[t.id] = true
+		switch {
+		case t.op == "select" && len(t.args) == 2:
+			a := t.args[0]
+			if a.op == "select" && len(a.args) == 2 {
+				add(t, a.args[0]) // element of a slice's backing array
+			} else if !t.sort.isArray() {
+				add(t, a) // field map
+			}
+		case len(t.op) > 3 && t.op[:3] == "at." && len(t.args) == 3:
+			if a := t.args[0]; a.op == "select" && len(a.args) == 2 {
+				add(t, a.args[0])
+			}
+		}
+		for _, a := range t.args {
+			walk(a)
+		}
+	}
+	walk(t)
 }
 
 // unfoldSumsIn unfolds every ground sum application inside t once.
@@ -289,8 +395,68 @@ func (x *Exec) skolemize(st *State, g *Term, depth int) *Term {
 		}
 		k := Fresh("sk."+bv.val, bv.sort)
 		inst := substTerm(body, map[int]*Term{bv.id: k})
-		x.addInterest(st, k, "*")
-		return x.skolemize(st, inst, depth+1)
+		// nested quantification (a forall over blocks of a forall over lines): the skolem constant is only
+		// relevant to facts about the arrays it indexes in the goal; otherwise every hypothesis is instantiated
+		// at every skolem constant of every level, which exhausts the instance budget.
+		if srt := indexSorts(body, bv); len(srt) > 0 && !srt["*"] {
+			for s := range srt {
+				if strings.HasPrefix(s, "sort:") {
+					x.addInterest(st, k, s)
+				}
+			}
+		} else {
+			x.addInterest(st, k, "*")
+		}
+		x.skNest++
+		r := x.skolemize(st, inst, depth+1)
+		x.skNest--
+		return r
 	}
 	return g
+}
+
+func containsQuant(t *Term) bool {
+	seen := map[int]bool{}
+	var walk func(t *Term) bool
+	walk = func(t *Term) bool {
+		if seen[t.id] {
+			return false
+		}
+		seen[t.id] = true
+		if t.op == "forall" || t.op == "exists" {
+			return true
+		}
+		for _, a := range t.args {
+			if walk(a) {
+				return true
+			}
+		}
+		return false
+	}
+	return walk(t)
+}
+
+// interestFromGoal: the index expressions of the (skolemised) goal's element reads, such as sk+1, are terms of
+// interest for the hypotheses about the same arrays. Only goals are scanned: doing the same for instances of
+// hypotheses would chase a[k+1], a[k+2], ... without end.
+func (x *Exec) interestFromGoal(st *State, g *Term) {
+	seen := map[int]bool{}
+	var walk func(t *Term)
+	walk = func(t *Term) {
+		if seen[t.id] || t.op == "forall" || t.op == "exists" {
+			return
+		}
+		seen[t.id] = true
+		if len(t.op) > 3 && t.op[:3] == "at." && len(t.args) == 3 && !hasFreeBound(t) {
+			if _, isLit := t.args[2].intVal(); !isLit || true {
+				for _, k := range arrKeys(t.args[0]) {
+					x.addInterest(st, t.args[2], k)
+				}
+			}
+		}
+		for _, a := range t.args {
+			walk(a)
+		}
+	}
+	walk(g)
 }
